@@ -16,6 +16,7 @@ OBLIGATIONS = [
     "Pkgcore.C09.absent_eq_pms_of_tame",
     "Pkgcore.C09.evaluate_preserves_sat_partial",
     "Pkgcore.C09.evaluate_preserves_sat_counterexample",
+    "Pkgcore.C09.evaluate_keeps_repeated_members",
     "Pkgcore.C09.class_table_complete",
     "Pkgcore.C09.operator_tables_standard",
     "Pkgcore.C09.render_open_table",
@@ -36,10 +37,13 @@ ASSUMPTIONS = [
 ]
 RULE = ("grammar-generated dependency strings per element class (atom/DEPEND, LICENSE, RESTRICT, SRC_URI with renames, REQUIRED_USE, REQUIRED_USE of an "
         "EAPI without ??): nested all-of/any-of/^^/??/conditional/negated-conditional groups to depth 4 incl. single-child and same-kind nested groups, "
+        "about half of the strings over a pool of 1-3 elements (the same element several times in one string / one group), "
         "random white space, 0-2 token-level corruptions in about a third of the cases; every subset of the referenced flags (<=5 flags) and every "
         "subset of the elements (<=4 elements, else 12 random subsets) as valuations; then evaluation histories: one DepSet object asked 3-8 "
         "more times with the caller's own mutable set / list changed in place between the calls (single toggles, jumps, the same content "
-        "again) and fresh frozensets interleaved, every answer judged for the content at the time of the call; non-trivial = the string parses and has a group or a conditional, "
+        "again) and fresh frozensets interleaved, every answer judged for the content at the time of the call; where model and code "
+        "evaluate an input differently without a valuation separating the meanings: the property on the real code on its shrinks, operator "
+        "variants, wraps and its REQUIRED_USE transliteration under all flag and element subsets; non-trivial = the string parses and has a group or a conditional, "
         "or it is a corrupted string")
 
 CLASSES = ["atom", "license", "restrict", "src_uri", "required_use", "required_use_eapi4"]
@@ -177,19 +181,20 @@ def kinds_of(ops):
     return [KIND_OF_CLASS[c] for _k, c in ops if c in KIND_OF_CLASS]
 
 
-def gen_tree(rng, cls, kinds, depth, allow_cond=True):
-    """raw grammar tree: ("l", text, rename|None) | ("g", kind, [children]) | ("c", neg, flag, [children])"""
+def gen_tree(rng, cls, kinds, depth, allow_cond=True, pool=None):
+    """raw grammar tree: ("l", text, rename|None) | ("g", kind, [children]) | ("c", neg, flag, [children]);
+    pool = the elements this string draws from (a small pool makes one element occur several times, also in one group)"""
     r = rng.random()
     if depth <= 0 or r < 0.38:
-        k = rng.choice(LEAVES[cls])
+        k = rng.choice(pool or LEAVES[cls])
         ren = rng.choice(RENAMES) if (cls == "src_uri" and "/" in k and rng.random() < 0.4) else None
         return ("l", k, ren)
     n = rng.choice([1, 1, 2, 2, 2, 3, 3, 4])
     if (r < 0.68 and allow_cond) or not kinds:
         flag = rng.choice(FLAGS[: rng.choice([2, 3, 5])])
-        return ("c", rng.random() < 0.35, flag, [gen_tree(rng, cls, kinds, depth - 1) for _ in range(n)])
+        return ("c", rng.random() < 0.35, flag, [gen_tree(rng, cls, kinds, depth - 1, pool=pool) for _ in range(n)])
     kind = rng.choice(kinds)
-    return ("g", kind, [gen_tree(rng, cls, kinds, depth - 1) for _ in range(n)])
+    return ("g", kind, [gen_tree(rng, cls, kinds, depth - 1, pool=pool) for _ in range(n)])
 
 
 def raw_tokens(t):
@@ -399,6 +404,172 @@ def present_json(keys):
     return out
 
 
+# ------------------------------------------------------------------ neighbourhood of an input on which model and code disagree
+
+def j_tokens(j):
+    """tokens of a (parsed or edited) structure in the JSON form of Real.to_json"""
+    out = []
+    for n in j:
+        if "l" in n:
+            out += [n["l"]] if n.get("r") is None else [n["l"], "->", n["r"]]
+        elif "g" in n:
+            out += ([] if n["g"] == "and" else [SYM[n["g"]]]) + ["("] + j_tokens(n["c"]) + [")"]
+        else:
+            out += [("!" if n["n"] else "") + n["f"] + "?", "("] + j_tokens(n["c"]) + [")"]
+    return out
+
+
+def j_size(j):
+    return sum(1 + (j_size(n["c"]) if "c" in n else 0) for n in j)
+
+
+def j_edits(j, kinds):
+    """one-step neighbours of a structure, as (label, new top-level list):
+    drop = one member removed, splice = a group / conditional replaced by its members (both strictly smaller);
+    kind = one group given another operator of the class, wrap = the whole list put into one group"""
+    def rec(nodes):
+        for i, n in enumerate(nodes):
+            def rest(repl, i=i):
+                return nodes[:i] + repl + nodes[i + 1:]
+            if len(nodes) > 1:
+                yield "drop", rest([])
+            if "c" in n:
+                yield "splice", rest(list(n["c"]))
+                if "g" in n:
+                    for k in kinds:
+                        if k != n["g"]:
+                            yield "kind", rest([dict(n, g=k)])
+                for lab, sub in rec(n["c"]):
+                    yield lab, rest([dict(n, c=sub)])
+    yield from rec(list(j))
+    for k in kinds:
+        yield "wrap", [{"g": k, "c": list(j)}]
+
+
+def j_translit(j, names):
+    """the same structure over the elements of another class: the i-th distinct element becomes names[i] (renames dropped)"""
+    table = {}
+
+    def rec(nodes):
+        out = []
+        for n in nodes:
+            if "l" in n:
+                key = (n["l"], n.get("r"))
+                if key not in table:
+                    table[key] = names[len(table)] if len(table) < len(names) else "t%d" % len(table)
+                out.append({"l": table[key]})
+            else:
+                out.append(dict(n, c=rec(n["c"])))
+        return out
+    return rec(j)
+
+
+class Explorer:
+    """Model and code disagree on the evaluation of one input but no valuation tried there separates the meanings: evaluate the
+    property itself on the real code on that input with more valuations and on nearby inputs — shrinks (members dropped, groups
+    spliced; greedy descent to a smallest input on which the disagreement persists), every group given the other operators of the
+    class, the whole list wrapped in each group kind, and the same structure read as REQUIRED_USE (where ^^ / ?? exist) — under
+    every flag subset and every element subset.  The oracle is the specification's reading of the *neighbour's own* original
+    (model side: Spec.satTopAbs), the judged value is `holds` on the objects evaluate_depset returned."""
+
+    def __init__(self, ctx, real):
+        self.ctx, self.real, self.rng = ctx, real, ctx.rng
+        self.seen = set()
+        self.probed = 0
+
+    def probe(self, cands, hint):
+        """cands: [(cls, top-level structure)] -> [(cls, string, parsed structure, disagrees, violation|None)]"""
+        real, rng = self.real, self.rng
+        reqs, meta = [], []
+        for cls, j in cands:
+            toks = j_tokens(j)
+            key = cls + "|" + " ".join(toks)
+            if key in self.seen:
+                continue
+            self.seen.add(key)
+            try:
+                d = real.parse(cls, " ".join(toks))
+                j2 = [real.to_json(r) for r in d.restrictions]
+            except Exception:
+                continue        # not a string of the language (emptied group, ?? in an EAPI without it, ...)
+            flags, leaves = flags_of(j2, []), leaves_of(j2, [])
+            if len(flags) <= 4:
+                flagsets = [list(c) for r in range(len(flags) + 1) for c in itertools.combinations(flags, r)]
+            else:
+                base = [f for f in flags if f in hint]
+                flagsets = [base] + [sorted(set(base) ^ {f}) for f in flags]
+            if len(leaves) <= 6:
+                presents = [list(c) for r in range(len(leaves) + 1) for c in itertools.combinations(leaves, r)]
+            else:
+                presents = [[], leaves] + [[l] for l in leaves] + [[l for l in leaves if rng.random() < pr] for pr in (0.2, 0.5, 0.8) for _ in range(8)]
+            reqs.append({"cmd": "c09.eval", "deps": j2, "flagsets": flagsets, "presents": [present_json(pr) for pr in presents]})
+            meta.append((cls, " ".join(toks), d, j2, flagsets, presents))
+        out = []
+        for (cls, s, d, j2, flagsets, presents), rep in zip(meta, self.ctx.model(reqs)):
+            if not isinstance(rep, list):
+                continue
+            self.probed += 1
+            disagrees, viol = False, None
+            for fs, o in zip(flagsets, rep):
+                try:
+                    ev = d.evaluate_depset(frozenset(fs))
+                    ej = [real.to_json(r) for r in ev.restrictions]
+                except Exception:
+                    continue
+                self.ctx.evaluations += 1
+                if flags_of(ej, []):
+                    continue
+                if ej == o["ev"]:
+                    continue
+                disagrees = True
+                if viol is None:
+                    for pres, sat in zip(presents, o["sat"]):
+                        got = all(real.holds(r, set(pres)) for r in ev.restrictions)
+                        if got != sat[0]:
+                            viol = (fs, sorted(pres), got, sat[0], ej, o["ev"])
+                            break
+            out.append((cls, s, j2, disagrees, viol))
+        return out
+
+    def explore(self, case, cls, j, fs):
+        """-> (cls, string, violation tuple) of the smallest neighbour on which the property fails on the real code, or None"""
+        real = self.real
+        hint = set(fs)
+        best = [None]
+
+        def note(results):
+            for c, s, j2, _dis, viol in results:
+                if viol is not None and (best[0] is None or j_size(j2) < best[0][0]):
+                    best[0] = (j_size(j2), c, s, viol)
+
+        def variants(c, cur):
+            kinds = kinds_of(real.cfg[c][2])
+            cands = [(c, new) for lab, new in j_edits(cur, kinds) if lab in ("kind", "wrap")]
+            if not {"one", "most"} <= set(kinds):
+                ru = j_translit(cur, ["a", "b", "c", "d", "e", "f", "g", "h"])
+                rk = kinds_of(real.cfg["required_use"][2])
+                cands += [("required_use", ru)] + [("required_use", new) for lab, new in j_edits(ru, rk) if lab in ("kind", "wrap")]
+            return cands
+
+        note(self.probe([(cls, j)], hint))                      # the input itself, more valuations
+        cur = j
+        for _round in range(40):                                 # greedy descent over strictly smaller neighbours
+            if best[0] is not None and best[0][0] <= 4:
+                break
+            smaller = [(cls, new) for lab, new in j_edits(cur, []) if lab in ("drop", "splice")]
+            res = self.probe(smaller, hint)
+            note(res)
+            still = [r for r in res if r[3]]
+            if not still:
+                break
+            cur = min(still, key=lambda r: j_size(r[2]))[2]
+        if best[0] is None or best[0][0] > 6:
+            note(self.probe(variants(cls, cur), hint))           # the smallest disagreeing input under the other operators
+        if best[0] is None and j_size(j) <= 40 and cur is not j:
+            note(self.probe(variants(cls, j), hint))             # and the original input under the other operators
+        return best[0]
+
+
 def run(ctx):
     rng = ctx.rng
     real = Real()
@@ -418,7 +589,15 @@ def run(ctx):
     for _ in range(n):
         cls = rng.choice(CLASSES)
         kinds = kinds_of(real.cfg[cls][2])
-        trees = [gen_tree(rng, cls, kinds, rng.choice([1, 2, 2, 3, 3, 4])) for _ in range(rng.choice([1, 1, 2, 3, 4]))]
+        # the elements of one string: the whole vocabulary, or (about half of the strings) a pool of 1-3 elements, so that the same
+        # element stands several times in one string / one group (where ^^ and ?? count it each time) and valuations are exhaustive
+        pool = None
+        if rng.random() < 0.5:
+            pool = rng.sample(LEAVES[cls], rng.choice([1, 2, 2, 3]))
+            ctx.count("element_pool_%d" % len(pool))
+        else:
+            ctx.count("element_pool_all")
+        trees = [gen_tree(rng, cls, kinds, rng.choice([1, 2, 2, 3, 3, 4]), pool=pool) for _ in range(rng.choice([1, 1, 2, 3, 4]))]
         toks = [x for t in trees for x in raw_tokens(t)]
         origin = "grammar"
         if rng.random() < 0.33:
@@ -546,6 +725,8 @@ def run(ctx):
     # ---- pass 2: evaluation
     ereplies = ctx.model(eval_reqs)
     nev = 0
+    unexplained = []    # (size, order, case, cls, parsed structure, flag set): model and code differ, meaning not shown to differ
+    failing = []        # the same where the meaning was shown to differ on a large input: shrunk below
     for (case, cls, d, j, flagsets, presents), rep in zip(eval_meta, ereplies):
         if rep == "bad-op" or not isinstance(rep, list):
             ctx.mismatch(case, f"driver rejected the eval request: {rep}")
@@ -569,7 +750,9 @@ def run(ctx):
             if flags_of(ej, []):
                 ctx.violation(ecase, f"evaluated structure still has conditionals: {ej}")
                 continue
-            if ej != out["ev"]:
+            differs = ej != out["ev"]
+            nviol_before = len(ctx.violations)
+            if differs:
                 ctx.mismatch(ecase, f"evaluated structure differs: impl {ej} model {out['ev']}")
             if ej != j:
                 ctx.count("eval_changed_structure")
@@ -594,7 +777,44 @@ def run(ctx):
                                              f"||/^^/?? counts as matched) the original gives {pms_orig}", finding="C09-emptied-group-nested-in-anyof")
                 if got != abs_ev or got != pms_ev:
                     ctx.mismatch(vcase, f"harness evaluation of the evaluated structure {got} differs from the spec's readings {abs_ev}/{pms_ev}")
+            if differs and len(ctx.violations) == nviol_before:
+                unexplained.append((j_size(j), len(unexplained), case, cls, j, fs))
+            elif differs and j_size(j) > 6:
+                failing.append((j_size(j), len(failing), case, cls, j, fs))
     ctx.extra["evaluate_depset_calls"] = nev
+
+    # ---- pass 2a: model and code evaluate an input differently but no valuation tried above separates the meanings.  A disagreement is
+    # not yet a failure of the property: look for one on the real code, on that input and on the inputs next to it (see Explorer).
+    # The same descent shrinks the first large inputs on which the property was seen to fail (the small one is put first in the report).
+    explorer = Explorer(ctx, real)
+    explored, found, done = 0, 0, set()
+    queue = sorted(failing, key=lambda u: u[:2])[:2] + sorted(unexplained, key=lambda u: u[:2])
+    for _sz, _i, case, cls, j, fs in queue:
+        if explored >= ctx.n(8, 40) or found >= 3:
+            break
+        if (cls, case["string"]) in done:
+            continue
+        done.add((cls, case["string"]))
+        explored += 1
+        hit = explorer.explore(case, cls, j, fs)
+        if hit is None:
+            continue
+        found += 1
+        _size, c2, s2, (fs2, pres2, got, want, ej2, mj2) = hit
+        if any(v["case"].get("string") == s2 and v["case"].get("class") == c2 for v in ctx.violations):
+            continue
+        if len(ctx.violations) >= 50:
+            ctx.violations.pop()
+        ctx.violation({"class": c2, "string": s2, "origin": "near-disagreement", "flags": fs2, "present": pres2,
+                       "near": {"class": cls, "string": case["string"], "flags": fs}},
+                      f"evaluated structure {ej2} is {'satisfied' if got else 'not satisfied'} by the elements, the original read under the "
+                      f"flags is {'satisfied' if want else 'not satisfied'} (a structure with that meaning: {mj2}); found by exploring the "
+                      f"neighbourhood of an input on which model and code evaluate differently")
+    if found:                                                   # the smallest failing input leads the report
+        k = min(range(len(ctx.violations)), key=lambda i: (len(str(ctx.violations[i]["case"].get("string", "x " * 999)).split()), i))
+        ctx.violations.insert(0, ctx.violations.pop(k))
+    ctx.extra["disagreements_explored"] = explored
+    ctx.extra["neighbour_inputs_probed"] = explorer.probed
 
     # ---- pass 2b: evaluation histories.  The property holds for every call: one DepSet object is asked again and again, with
     # the caller's *own mutable* flag containers changed in place between the calls (a set, a list), other containers and fresh
